@@ -91,7 +91,23 @@ def r2_impl_pairs(facts, rep):
     dd = find("::deserialize", "<unit::Derived as")
     rs = find("::serialize", "<rational::Rational as")
     rd = find("::deserialize", "<rational::Rational as")
+    # Rational's wire form is BigRational's: a hand-written forwarding pair, or the derived pair of a single-field struct
+    # marked #[serde(transparent)] (the derive then forwards to the field's impls - the same bytes)
+    transparent = False
+    if rs is None and rd is None:
+        a = facts.ast.get(("anything", "rational::Rational"))
+        adt = facts.adt("rational::Rational")
+        paths = {b.path for b in facts.all if b.crate == "anything" and b.from_derive()}
+        derived = any("Serialize for rational::Rational>::serialize" in p_ for p_ in paths) and \
+            any("Deserialize<'de> for rational::Rational>::deserialize" in p_ for p_ in paths)
+        transparent = bool(a) and any("serde" in at and "transparent" in at for at in a["attrs"]) and derived and adt is not None \
+            and len(adt["variants"][0]["fields"]) == 1 and "Ratio<" in adt["variants"][0]["fields"][0]["ty"]
+        rep.ob("C17-R2", "Rational:transparent", transparent,
+               "Rational derives both impls as #[serde(transparent)] over its single BigRational field" if transparent else
+               "Rational has neither hand-written forwarding impls nor a derived #[serde(transparent)] pair over one BigRational field")
     for nm, b in (("Derived::serialize", ds), ("Derived::deserialize", dd), ("Rational::serialize", rs), ("Rational::deserialize", rd)):
+        if nm.startswith("Rational::") and transparent:
+            continue
         rep.ob("C17-R2", "anchor:" + nm, b is not None, "hand-written %s found" % nm)
     from ..absint import core
     from ..absint.core import Agg, Const, Ref, some, NONE, ok, err
